@@ -181,6 +181,41 @@ func KthScenarios() []Scenario {
 		cs = append(cs, e.DropAllIndexes(sns), e.ListIndexes(sns))
 		return append(cs, probes(e, 3)...)
 	}})
+	// several indexes in one call, the k-th of n cannot be created: none of them is
+	for n := 2; n <= 3; n++ {
+		for k := 1; k <= n; k++ {
+			for _, why := range []string{"unique-violation", "bad-key", "name-conflict", "key-conflict"} {
+				n, k, why := n, k, why
+				out = append(out, Scenario{Name: "kth/createIndexes/" + why, Calls: func(e *Env) []Call {
+					cs := baseSetup(e, 3, 1, "")
+					cs = append(cs, e.Update(sns, false, d("_id", int32(2)), d("$set", d("b", int32(1))), false, nil)) // b: 1, 1, 3
+					var specs []IndexSpec
+					for i := 1; i <= n; i++ {
+						sp := IndexSpec{Key: d("f"+itoa(i), int32(1)), Expire: -1}
+						if i == k {
+							switch why {
+							case "unique-violation":
+								sp = IndexSpec{Key: d("b", int32(-1)), Unique: true, Name: "ub", Expire: -1}
+							case "bad-key":
+								sp = IndexSpec{Key: d("x", "sideways"), Expire: -1}
+							case "name-conflict":
+								sp = IndexSpec{Key: d("zz", int32(1)), Name: "a_1", Expire: -1}
+							case "key-conflict":
+								sp = IndexSpec{Key: d("b", int32(1)), Name: "other", Expire: -1}
+							}
+						}
+						specs = append(specs, sp)
+					}
+					cs = append(cs, e.CreateIndexes(sns, specs), e.ListIndexes(sns))
+					// all of them valid: all created, in order; again: no-op
+					ok := []IndexSpec{{Key: d("f1", int32(1)), Expire: -1}, {Key: d("f2", int32(-1)), Unique: true, Partial: d("f2", d("$exists", true)), Name: "pf2", Expire: -1}, {Key: d("when", int32(1)), Expire: 60}}
+					cs = append(cs, e.CreateIndexes(sns, ok), e.CreateIndexes(sns, ok), e.ListIndexes(sns), e.UpdateByID(sns, int32(1), d("$set", d("f2", int32(5)))),
+						e.UpdateByID(sns, int32(2), d("$set", d("f2", int32(5)))), e.UpdateByID(sns, int32(44), d("$set", d("f2", int32(6)))))
+					return append(cs, probes(e, 3)...)
+				}})
+			}
+		}
+	}
 	return out
 }
 
